@@ -86,22 +86,57 @@ Qed.
 Lemma ftoks_strip : forall t, map ftok_of (map strip t) = map ftok_of t.
 Proof. intro t; rewrite map_map; apply map_ext; intros [? ? ? ? ?|]; reflexivity. Qed.
 
-Lemma verdict_strip : forall drv sc t1 t2 res u,
-  map strip t1 = map strip t2 -> verdict drv sc (t1, res, u) = verdict drv sc (t2, res, u).
+Lemma forallb_map' : forall {A B} (f : A -> B) (p : B -> bool) l, forallb p (map f l) = forallb (fun x => p (f x)) l.
+Proof. induction l as [|x r IH]; simpl; [reflexivity | rewrite IH; reflexivity]. Qed.
+Lemma forallb_ext' : forall {A} (p q : A -> bool) l, (forall x, p x = q x) -> forallb p l = forallb q l.
+Proof. intros A p q l H; induction l as [|x r IH]; simpl; [reflexivity | rewrite H, IH; reflexivity]. Qed.
+Lemma is_method_item_strip : forall i, is_method_item (strip i) = is_method_item i.
+Proof. intros [t e d cs x|]; [destruct t|]; reflexivity. Qed.
+Lemma is_ev_item_strip : forall e i, is_ev_item e (strip i) = is_ev_item e i.
+Proof. intros e [t e' d cs x|]; [destruct t|]; reflexivity. Qed.
+Lemma drop_nonmethod_strip : forall l, drop_nonmethod (map strip l) = map strip (drop_nonmethod l).
 Proof.
-  intros drv sc t1 t2 res u H. unfold verdict, wsgi_ok.
-  rewrite <- (mtoks_strip t1), <- (mtoks_strip t2), <- (ftoks_strip t1), <- (ftoks_strip t2), H.
-  reflexivity.
+  induction l as [|i r IH]; simpl; [reflexivity|].
+  rewrite is_method_item_strip. destruct (is_method_item i); [reflexivity | exact IH].
+Qed.
+Lemma frame_ok_strip : forall t, frame_ok (map strip t) = frame_ok t.
+Proof.
+  intros [|i r]; [reflexivity|]. simpl.
+  destruct i as [t e d cs x|]; [|reflexivity]. simpl.
+  destruct t; try reflexivity. destruct e; try reflexivity. destruct d; try reflexivity.
+  destruct x; try reflexivity.
+  rewrite <- map_rev, drop_nonmethod_strip.
+  destruct (drop_nonmethod (rev r)) as [|j m]; [reflexivity|]. simpl.
+  destruct j as [t' e' d' cs' x'|]; [|reflexivity]. simpl.
+  destruct t'; try reflexivity. destruct e'; try reflexivity. destruct x'; try reflexivity.
+  rewrite forallb_map'. apply forallb_ext'. intro i. rewrite !is_ev_item_strip. reflexivity.
 Qed.
 
-Lemma run_strip : forall f g sc drv p,
-  (forall t e d, In (t, e) (sites p) -> snd (f t e d) = snd (g t e d)) ->
-  verdict drv sc (run f sc p) = verdict drv sc (run g sc p).
+(** judgements that do not look at which listeners were called *)
+Definition strip_invariant (J : list fitem * result * bool -> bool) : Prop :=
+  forall t1 t2 res u, map strip t1 = map strip t2 -> J (t1, res, u) = J (t2, res, u).
+
+Lemma verdict_strip : forall drv sc, strip_invariant (verdict drv sc).
 Proof.
-  intros f g sc drv p H. unfold run.
+  intros drv sc t1 t2 res u H. unfold verdict, wsgi_ok.
+  rewrite <- (mtoks_strip t1), <- (mtoks_strip t2), <- (ftoks_strip t1), <- (ftoks_strip t2),
+          <- (frame_ok_strip t1), <- (frame_ok_strip t2), H.
+  reflexivity.
+Qed.
+Lemma escape_shape_strip : forall k, strip_invariant (escape_shape k).
+Proof.
+  intros k t1 t2 res u H. unfold escape_shape.
+  rewrite <- (mtoks_strip t1), <- (mtoks_strip t2), H. reflexivity.
+Qed.
+
+Lemma run_strip : forall J f g sc p, strip_invariant J ->
+  (forall t e d, In (t, e) (sites p) -> snd (f t e d) = snd (g t e d)) ->
+  J (run f sc p) = J (run g sc p).
+Proof.
+  intros J f g sc p HJ H. unfold run.
   pose proof (exec_strip f g sc p H st0 None) as S.
   destruct (exec f sc p st0 None) as [[t1 s1] g1], (exec g sc p st0 None) as [[t2 s2] g2].
-  destruct S as (Ht & Hs & Hg); simpl in *; subst. apply verdict_strip; assumption.
+  destruct S as (Ht & Hs & Hg); simpl in *; subst. apply HJ; assumption.
 Qed.
 
 (** under [quiet], at the sites of a program that only raises through ctx.fire_event, a fire
@@ -193,7 +228,7 @@ Theorem trace_ok_fire : forall drv sc fire,
   verdict drv sc (run fire sc (driver_prog drv)) = true.
 Proof.
   intros drv sc fire Hadm Hq.
-  rewrite (run_strip fire _ sc drv (driver_prog drv)
+  rewrite (run_strip (verdict drv sc) fire _ sc (driver_prog drv) (verdict_strip drv sc)
              (quiet_table fire _ Hq (drivers_sites_ok drv))).
   pose proof (sweep_sound drv sc _ _ _ _ Hadm
                 (quiet_raise fire Hq TCtx Ecall true) (quiet_raise fire Hq TCtx Ecall false)
@@ -242,3 +277,66 @@ Theorem trace_ok : forall drv sc parts w dms b,
   scen_adm (is_wsgi drv) sc = true -> quiet_beh b ->
   verdict drv sc (run (fire_world parts w dms b) sc (driver_prog drv)) = true.
 Proof. intros; apply trace_ok_fire; [assumption | apply quiet_world; assumption]. Qed.
+
+(* ------------------------------------------------------------------ ServerBase, unserialisable return value *)
+Lemma sweep_sb_true : sweepF chk_sb = true.
+Proof. vm_cast_no_check (eq_refl true). Qed.
+
+Lemma scen_adm_true_parts : forall sc, scen_adm true sc = true ->
+  In (sc_create sc) all_parse /\ In (sc_decomp sc) all_parse /\ In (sc_dispatch sc) all_parse
+  /\ In (sc_deser sc) all_parse /\ In (sc_fn sc) all_raise /\ In (sc_ser sc) all_raise /\ sc_opaque sc = false.
+Proof.
+  intros sc H. unfold scen_adm in H. repeat rewrite andb_true_iff in H.
+  destruct H as (((((((H1 & H2) & H3) & H4) & H5) & H6) & H7) & H8).
+  apply negb_true_iff in H8.
+  auto 10 using parse_adm_in, raise_adm_in.
+Qed.
+
+Theorem sb_unserialisable_fire : forall sc fire k,
+  scen_adm true sc = true -> quiet fire -> sc_ser sc = Some k ->
+  verdict DServerBase sc (run fire sc (driver_prog DServerBase)) = true
+  \/ escape_shape k (run fire sc (driver_prog DServerBase)) = true.
+Proof.
+  intros sc fire k Hadm Hq Hk.
+  pose proof (quiet_table fire _ Hq (drivers_sites_ok DServerBase)) as T.
+  rewrite (run_strip (verdict DServerBase sc) fire _ sc _ (verdict_strip _ sc) T).
+  rewrite (run_strip (escape_shape k) fire _ sc _ (escape_shape_strip k) T).
+  destruct (scen_adm_true_parts sc Hadm) as (I1 & I2 & I3 & I4 & I5 & I6 & Hop).
+  destruct sc as [cr de di ds fn se rd af dc op].
+  cbn [sc_create sc_decomp sc_dispatch sc_deser sc_fn sc_ser sc_opaque] in *. subst op se.
+  pose proof (sweepF_sound chk_sb sweep_sb_true DServerBase cr de di ds fn (Some k) rd af dc
+                (snd (fire TCtx Ecall true)) (snd (fire TCtx Ecall false))
+                (snd (fire TCtx Eret_obj true)) (snd (fire TCtx Eret_obj false))
+                (all_drv_in _) I1 I2 I3 I4 I5 I6 (all_oexk_in _) (all_bool_in _) (all_bool_in _)
+                (quiet_raise fire Hq _ _ _) (quiet_raise fire Hq _ _ _)
+                (quiet_raise fire Hq _ _ _) (quiet_raise fire Hq _ _ _)) as C.
+  unfold chk_sb, check_sb in C. rewrite Hadm in C. cbn [sc_ser] in C.
+  apply orb_true_iff in C. exact C.
+Qed.
+
+Theorem sb_unserialisable : forall sc parts w dms b k,
+  scen_adm true sc = true -> quiet_beh b -> sc_ser sc = Some k ->
+  let out := run (fire_world parts w dms b) sc (driver_prog DServerBase) in
+  verdict DServerBase sc out = true \/ escape_shape k out = true.
+Proof. intros; apply sb_unserialisable_fire; auto using quiet_world. Qed.
+
+(** the full statement for ServerBase (serialisation failures included) is false *)
+Definition sc_nul : scen :=
+  {| sc_create := None; sc_decomp := None; sc_dispatch := None; sc_deser := None; sc_fn := None;
+     sc_ser := Some KOther; sc_redirect := None; sc_after_on_fault := true; sc_doc_early := false;
+     sc_opaque := false |}.
+Theorem sb_unserialisable_refuted :
+  exists sc b, scen_adm true sc = true /\ quiet_beh b /\
+    forall parts w dms, verdict DServerBase sc (run (fire_world parts w dms b) sc (driver_prog DServerBase)) = false.
+Proof.
+  exists sc_nul, (fun _ _ => None). split; [reflexivity|]. split; [intros h e k H; discriminate|].
+  intros parts w dms.
+  assert (Q : quiet (fire_world parts w dms (fun _ _ => None)))
+    by (apply quiet_world; intros h e k H; discriminate).
+  rewrite (run_strip (verdict DServerBase sc_nul) _ _ sc_nul _ (verdict_strip _ _)
+             (quiet_table _ _ Q (drivers_sites_ok DServerBase))).
+  assert (N : forall t e d, snd (fire_world parts w dms (fun _ _ => None) t e d) = None).
+  { intros t e d. destruct (snd (fire_world parts w dms (fun _ _ => None) t e d)) eqn:E; [|reflexivity].
+    destruct (fire_world_raises _ _ _ _ _ _ _ _ E) as (h & Hh). discriminate. }
+  rewrite !N. vm_compute. reflexivity.
+Qed.
